@@ -309,6 +309,53 @@ theorem mkBumps_mem : ∀ {cvm : List (Nat × Graph Bumps)} {pins : Pins} {paren
           · obtain ⟨g, v', h1, h2, h3⟩ := ih hrest comp bump hm
             exact ⟨g, v', List.mem_cons_of_mem _ h1, h2, h3⟩
 
+theorem mkBumps_complete : ∀ {cvm : List (Nat × Graph Bumps)} {pins : Pins} {parents : List Bumps} {bumps : Bumps},
+    mkBumps cvm pins parents = .ok bumps → ∀ comp g v, (comp, g) ∈ cvm → pins.lookup comp = some v →
+    ∃ g' bump, (comp, g') ∈ cvm ∧ (comp, bump) ∈ bumps ∧ mkBump g' comp v parents = .ok bump := by
+  intro cvm
+  induction cvm with
+  | nil => intro pins parents bumps _ comp g v hm; cases hm
+  | cons cg cvm ih =>
+    intro pins parents bumps h comp g v hm hv
+    obtain ⟨c0, g0⟩ := cg
+    simp only [mkBumps] at h
+    split at h
+    · cases h
+    · rename_i rest hrest
+      rcases List.mem_cons.mp hm with hm | hm
+      · cases hm
+        rw [hv] at h
+        simp only at h
+        split at h
+        · cases h
+        · rename_i b hb
+          cases h
+          exact ⟨g, b, by simp, by simp, hb⟩
+      · obtain ⟨g', bump, h1, h2, h3⟩ := ih hrest comp g v hm hv
+        split at h
+        · cases h; exact ⟨g', bump, List.mem_cons_of_mem _ h1, h2, h3⟩
+        · split at h
+          · cases h
+          · cases h; exact ⟨g', bump, List.mem_cons_of_mem _ h1, List.mem_cons_of_mem _ h2, h3⟩
+
+/-- if every entry of a dictionary under the key `k` has the same value, `lookup` returns it -/
+theorem lookup_of_unique {ν} : ∀ {l : List (Nat × ν)} {k : Nat} {v : ν}, (k, v) ∈ l →
+    (∀ v', (k, v') ∈ l → v' = v) → l.lookup k = some v := by
+  intro l
+  induction l with
+  | nil => intro k v hm; cases hm
+  | cons a l ih =>
+    intro k v hm hu
+    obtain ⟨k', v'⟩ := a
+    by_cases hk : k = k'
+    · subst hk
+      rw [lookup_cons_self]
+      rw [hu v' (by simp)]
+    · rw [lookup_cons_ne _ _ _ _ hk]
+      rcases List.mem_cons.mp hm with h1 | h1
+      · cases h1; exact absurd rfl hk
+      · exact ih h1 (fun v'' hv'' => hu v'' (List.mem_cons_of_mem _ hv''))
+
 /-! ### the registration loop -/
 
 theorem concatM_mem {α} : ∀ {l : List (Except Err (List α))} {out : List α}, concatM l = .ok out →
